@@ -24,8 +24,15 @@ mod acct {
 }
 use acct::contract::{MultisigContract, MultisigContractClient};
 
+mod spendpol {
+    #[path = "/repo/examples/multisig-smart-account/spending-limit-policy/src/contract.rs"]
+    pub mod contract;
+}
+
 mod mocks {
     use soroban_sdk::{auth::Context, contract, contractimpl, contracttype, symbol_short, Address, Bytes, BytesN, Env, TryFromVal, Val, Vec};
+    use stellar_accounts::policies::{spending_limit, Policy};
+    use super::spendpol::contract::SpendingLimitPolicyContract;
     use stellar_accounts::policies::simple_threshold;
     use stellar_accounts::smart_account::{ContextRule, Signer};
 
@@ -160,6 +167,42 @@ mod mocks {
             Self::lg(&e, Ev::Uninstall(e.current_contract_address(), context_rule.clone(), smart_account.clone()));
             simple_threshold::uninstall(&e, &context_rule, &smart_account)
         }
+        pub fn set_threshold(e: Env, threshold: u32, context_rule: ContextRule, smart_account: Address) {
+            simple_threshold::set_threshold(&e, threshold, &context_rule, &smart_account)
+        }
+    }
+
+    /// the REAL spending-limit policy: the entry points of the example policy contract
+    /// (examples/multisig-smart-account/spending-limit-policy, i.e. policies::spending_limit), run inside a
+    /// contract that also logs every call it receives
+    #[contract]
+    pub struct LoggedSpending;
+    #[contractimpl]
+    impl LoggedSpending {
+        pub fn __constructor(e: Env, logger: Address) { e.storage().instance().set(&symbol_short!("logger"), &logger); }
+        fn lg(e: &Env, ev: Ev) {
+            let logger: Address = e.storage().instance().get(&symbol_short!("logger")).unwrap();
+            LoggerClient::new(e, &logger).log(&ev);
+        }
+        pub fn can_enforce(e: Env, context: Context, authenticated_signers: Vec<Signer>, context_rule: ContextRule, smart_account: Address) -> bool {
+            Self::lg(&e, Ev::Can(e.current_contract_address(), context.clone(), authenticated_signers.clone(), context_rule.clone(), smart_account.clone()));
+            <SpendingLimitPolicyContract as Policy>::can_enforce(&e, context, authenticated_signers, context_rule, smart_account)
+        }
+        pub fn enforce(e: Env, context: Context, authenticated_signers: Vec<Signer>, context_rule: ContextRule, smart_account: Address) {
+            Self::lg(&e, Ev::Enforce(e.current_contract_address(), context.clone(), authenticated_signers.clone(), context_rule.clone(), smart_account.clone()));
+            <SpendingLimitPolicyContract as Policy>::enforce(&e, context, authenticated_signers, context_rule, smart_account)
+        }
+        pub fn install(e: Env, install_params: Val, context_rule: ContextRule, smart_account: Address) {
+            let p = spending_limit::SpendingLimitAccountParams::try_from_val(&e, &install_params).unwrap();
+            // logged as the packed number the harness derived the parameters from
+            let code = super::PERIODS.iter().position(|x| *x == p.period_ledgers).unwrap_or(0) as u32;
+            Self::lg(&e, Ev::Install(e.current_contract_address(), (p.spending_limit as u32) * 8 + code, context_rule.clone(), smart_account.clone()));
+            <SpendingLimitPolicyContract as Policy>::install(&e, p, context_rule, smart_account)
+        }
+        pub fn uninstall(e: Env, context_rule: ContextRule, smart_account: Address) {
+            Self::lg(&e, Ev::Uninstall(e.current_contract_address(), context_rule.clone(), smart_account.clone()));
+            <SpendingLimitPolicyContract as Policy>::uninstall(&e, context_rule, smart_account)
+        }
     }
 
     /// a contract whose entry point needs the authorisation of `who`, and calls others that do too
@@ -170,6 +213,13 @@ mod mocks {
         pub fn act(e: Env, who: Address, subs: Vec<Address>) {
             who.require_auth();
             for t in subs.iter() { TargetClient::new(&e, &t).act(&who, &Vec::new(&e)); }
+        }
+        /// token-like: needs the sender's authorisation
+        pub fn transfer(_e: Env, from: Address, _to: Address, _amount: i128) { from.require_auth(); }
+        /// needs `who`, then makes `token` transfer each amount on behalf of `who`
+        pub fn multi(e: Env, who: Address, token: Address, amounts: Vec<i128>) {
+            who.require_auth();
+            for a in amounts.iter() { TargetClient::new(&e, &token).transfer(&who, &e.current_contract_address(), &a); }
         }
     }
 }
@@ -185,7 +235,7 @@ enum Cls { Good, Bad(u8), Trap }
 #[derive(Clone, Copy, PartialEq, Eq, Debug)]
 enum Ct { Default, Call(usize), Create(usize) }
 #[derive(Clone, Copy, PartialEq, Eq, Debug)]
-enum Cx { Call(usize, usize), Create(usize), CreateCtor(usize) }
+enum Cx { Call(usize, usize), Create(usize), CreateCtor(usize), Transfer(usize, i128) }
 #[derive(Clone, Debug)]
 enum Pd { True, False, Trap, Min(u32), Call(usize), NotCall(usize), Has(Sg) }
 #[derive(Clone, Debug)]
@@ -204,12 +254,15 @@ enum Op {
 #[derive(Clone, Debug, Default)]
 struct Authz { sigs: std::vec::Vec<(Sg, Cls)>, auths: std::vec::Vec<usize> }
 
-const FN_NAMES: [&str; 11] = ["act", "add_context_rule", "update_context_rule_name", "update_context_rule_valid_until",
-    "remove_context_rule", "add_signer", "remove_signer", "add_policy", "remove_policy", "foo", "bar"];
+const FN_NAMES: [&str; 15] = ["act", "add_context_rule", "update_context_rule_name", "update_context_rule_valid_until",
+    "remove_context_rule", "add_signer", "remove_signer", "add_policy", "remove_policy", "foo", "bar", "execute", "set_threshold", "transfer", "multi"];
 const RULE_NAMES: [&str; 4] = ["multisig", "ops", "treasury", "guardians"];
 const UNKNOWN: u64 = 999;
 /// index of the real simple-threshold policy among the policies (Model: real_thr)
 const REAL_THR: usize = 7;
+/// index of the real spending-limit policy (Model: real_spend); its parameter k packs limit = k / 8, period = PERIODS[k % 8]
+const REAL_SPEND: usize = 8;
+pub const PERIODS: [u32; 8] = [0, 1, 2, 5, 20, 100, 17281, 1_000_000];
 
 struct World {
     e: Env,
@@ -244,16 +297,19 @@ impl World {
         let delegated = (0..8).map(|_| e.register(OkAccount, ())).collect();
         let mut policies: std::vec::Vec<Address> = (0..REAL_THR).map(|_| e.register(MockPolicy, (&lg,))).collect();
         policies.push(e.register(LoggedThreshold, (&lg,)));
+        policies.push(e.register(LoggedSpending, (&lg,)));
         let t1 = e.register(Target, ());
         let t2 = e.register(Target, ());
-        let callees = std::vec![Address::generate(&e) /* placeholder for the account */, t1, t2, Address::generate(&e)];
+        let callees = std::vec![Address::generate(&e) /* placeholder for the account */, t1, t2, Address::generate(&e), policies[REAL_THR].clone()];
         let wasms = (0..2u8).map(|i| BytesN::from_array(&e, &[0x51 + i; 32])).collect();
         World { e, lg, acc: None, verifiers, keys, delegated, policies, callees, wasms, nonce: 1, adds: 0 }
     }
     fn acc(&self) -> &Address { self.acc.as_ref().unwrap() }
     /// installation parameter: a plain u32 for the mocks, the real parameter struct for the real policy
     fn param(&self, p: usize, k: u32) -> Val {
-        if p == REAL_THR { stellar_accounts::policies::simple_threshold::SimpleThresholdAccountParams { threshold: k }.into_val(&self.e) } else { k.into_val(&self.e) }
+        if p == REAL_THR { stellar_accounts::policies::simple_threshold::SimpleThresholdAccountParams { threshold: k }.into_val(&self.e) }
+        else if p == REAL_SPEND { stellar_accounts::policies::spending_limit::SpendingLimitAccountParams { spending_limit: (k / 8) as i128, period_ledgers: PERIODS[(k % 8) as usize] }.into_val(&self.e) }
+        else { k.into_val(&self.e) }
     }
 
     // ----- universe -> SDK values -----
@@ -268,6 +324,7 @@ impl World {
         match c {
             Cx::Call(a, f) => Context::Contract(ContractContext { contract: self.callees[a].clone(), fn_name: Symbol::new(e, FN_NAMES[f]), args: soroban_sdk::vec![e, 5u32.into_val(e)] }),
             Cx::Create(w) => Context::CreateContractHostFn(CreateContractHostFnContext { executable: ContractExecutable::Wasm(self.wasms[w].clone()), salt: BytesN::from_array(e, &[3u8; 32]) }),
+            Cx::Transfer(a, amt) => Context::Contract(ContractContext { contract: self.callees[a].clone(), fn_name: Symbol::new(e, "transfer"), args: soroban_sdk::vec![e, self.callees[0].to_val(), self.callees[3].to_val(), amt.into_val(e)] }),
             Cx::CreateCtor(w) => Context::CreateContractWithCtorHostFn(CreateContractWithConstructorHostFnContext { executable: ContractExecutable::Wasm(self.wasms[w].clone()), salt: BytesN::from_array(e, &[4u8; 32]), constructor_args: soroban_sdk::vec![e, 1u32.into_val(e)] }),
         }
     }
@@ -302,6 +359,9 @@ impl World {
         let w = |h: &BytesN<32>| n(self.wasms.iter().position(|x| x == h).map(|i| i as u64).unwrap_or(UNKNOWN));
         match c {
             Context::Contract(cc) => {
+                if cc.fn_name == Symbol::new(&self.e, "transfer") {
+                    if let Some(v) = cc.args.get(2) { if let Ok(amt) = i128::try_from_val(&self.e, &v) { return format!("CTransfer {} {}", n(Self::idx(&self.callees, &cc.contract)), z(amt)); } }
+                }
                 let f = FN_NAMES.iter().position(|nm| cc.fn_name == Symbol::new(&self.e, nm)).map(|i| i as u64).unwrap_or(UNKNOWN);
                 format!("CCall {} {}", n(Self::idx(&self.callees, &cc.contract)), n(f))
             }
@@ -311,7 +371,7 @@ impl World {
     }
     fn g_sg(s: Sg) -> String { match s { Sg::Del(i) => format!("Delegated {}", n(i as u64)), Sg::Ext(v, k) => format!("External {} {}", n(v as u64), n(k as u64)) } }
     fn g_ct(t: Ct) -> String { match t { Ct::Default => "TDefault".into(), Ct::Call(a) => format!("TCall {}", n(a as u64)), Ct::Create(w) => format!("TCreate {}", n(w as u64)) } }
-    fn g_cx(c: Cx) -> String { match c { Cx::Call(a, f) => format!("CCall {} {}", n(a as u64), n(f as u64)), Cx::Create(w) => format!("CCreate {}", n(w as u64)), Cx::CreateCtor(w) => format!("CCreateCtor {}", n(w as u64)) } }
+    fn g_cx(c: Cx) -> String { match c { Cx::Transfer(a, amt) => format!("CTransfer {} {}", n(a as u64), z(amt)), Cx::Call(a, f) => format!("CCall {} {}", n(a as u64), n(f as u64)), Cx::Create(w) => format!("CCreate {}", n(w as u64)), Cx::CreateCtor(w) => format!("CCreateCtor {}", n(w as u64)) } }
     fn g_pd(p: &Pd) -> String {
         match p { Pd::True => "PTrue".into(), Pd::False => "PFalse".into(), Pd::Trap => "PTrap".into(), Pd::Min(k) => format!("(PMin {})", k),
                   Pd::Call(a) => format!("(PCall {})", n(*a as u64)), Pd::NotCall(a) => format!("(PNotCall {})", n(*a as u64)), Pd::Has(s) => format!("(PHas ({}))", Self::g_sg(*s)) }
@@ -366,7 +426,7 @@ impl World {
         }
         v
     }
-    fn types() -> std::vec::Vec<Ct> { std::vec![Ct::Default, Ct::Call(0), Ct::Call(1), Ct::Call(2), Ct::Call(3), Ct::Create(0), Ct::Create(1)] }
+    fn types() -> std::vec::Vec<Ct> { std::vec![Ct::Default, Ct::Call(0), Ct::Call(1), Ct::Call(2), Ct::Call(3), Ct::Call(4), Ct::Create(0), Ct::Create(1)] }
     fn observe(&self) -> String {
         let now = self.e.ledger().sequence();
         match &self.acc {
@@ -597,6 +657,52 @@ impl<'a> Tr<'a> {
         let label = format!("invoke{}", if cs.len() > 1 { ".multi" } else { "" });
         match r { Ok(Ok(())) => { self.push(&label, call, Some((None, log)), std::vec![]); true } _ => { self.push(&label, call, None, log); false } }
     }
+    /// target 1 `multi`: needs the account, then has target 2 `transfer` every amount on the account's behalf:
+    /// contexts [call of 1; transfer(amount) of 2 ...], all in one __check_auth
+    fn invoke_transfers(&mut self, a: &Authz, amts: &[i128]) -> bool {
+        let e = self.w.e.clone();
+        let acc = self.w.acc().clone();
+        let (t1, t2) = (self.w.callees[1].clone(), self.w.callees[2].clone());
+        let av: Vec<i128> = Vec::from_iter(&e, amts.iter().cloned());
+        let subnodes = amts.iter().map(|x| self.w.node(&t2, "transfer", soroban_sdk::vec![&e, acc.to_val(), t1.to_val(), (*x).into_val(&e)], std::vec![])).collect();
+        let root = self.w.node(&t1, "multi", soroban_sdk::vec![&e, acc.to_val(), t2.to_val(), av.to_val()], subnodes);
+        let (ordered, payload) = self.w.authorise(a, root);
+        let r = TargetClient::new(&e, &t1).try_multi(&acc, &t2, &av);
+        e.set_auths(&[]);
+        let log = self.w.take_log(Some(&payload));
+        let mut cs = std::vec![Cx::Call(1, 14)];
+        cs.extend(amts.iter().map(|x| Cx::Transfer(2, *x)));
+        let call = format!("Invoke {} {}", World::g_authz(&Authz { sigs: ordered, auths: a.auths.clone() }), list(&cs.iter().map(|c| World::g_cx(*c)).collect::<std::vec::Vec<_>>()));
+        match r { Ok(Ok(())) => { self.push("invoke.transfers", call, Some((None, log)), std::vec![]); true } _ => { self.push("invoke.transfers", call, None, log); false } }
+    }
+    /// the threshold policy's own set_threshold entry point: through the account's `execute`, or called directly
+    fn set_threshold(&mut self, a: &Authz, via_execute: bool, id: u32, t: u32) -> bool {
+        let e = self.w.e.clone();
+        let acc = self.w.acc().clone();
+        let pol = self.w.policies[REAL_THR].clone();
+        let rule = match self.w.rules().into_iter().find(|r| r.id == id) {
+            Some(r) => r,
+            None => ContextRule { id, context_type: ContextRuleType::Default, name: SStr::from_str(&e, RULE_NAMES[1]), signers: Vec::from_iter(&e, [self.w.signer(Sg::Del(0)), self.w.signer(Sg::Del(1))]), policies: Vec::new(&e), valid_until: None },
+        };
+        let nsig = rule.signers.len();
+        let inner: Vec<Val> = soroban_sdk::vec![&e, t.into_val(&e), rule.into_val(&e), acc.to_val()];
+        let r = if via_execute {
+            let args: Vec<Val> = soroban_sdk::vec![&e, pol.to_val(), Symbol::new(&e, "set_threshold").to_val(), inner.to_val()];
+            let root = self.w.node(&acc, "execute", args.clone(), std::vec![]);
+            let (ordered, payload) = self.w.authorise(a, root);
+            (e.try_invoke_contract::<Val, soroban_sdk::Error>(&acc, &Symbol::new(&e, "execute"), args), ordered, payload)
+        } else {
+            let root = self.w.node(&pol, "set_threshold", inner.clone(), std::vec![]);
+            let (ordered, payload) = self.w.authorise(a, root);
+            (e.try_invoke_contract::<Val, soroban_sdk::Error>(&pol, &Symbol::new(&e, "set_threshold"), inner), ordered, payload)
+        };
+        e.set_auths(&[]);
+        let (res, ordered, payload) = r;
+        let log = self.w.take_log(Some(&payload));
+        let call = format!("SetThreshold {} {} {} {} {}", b(via_execute), World::g_authz(&Authz { sigs: ordered, auths: a.auths.clone() }), id, t, nsig);
+        let label = if via_execute { "set_threshold.execute" } else { "set_threshold.direct" };
+        match res { Ok(Ok(_)) => { self.push(label, call, Some((None, log)), std::vec![]); true } _ => { self.push(label, call, None, log); false } }
+    }
     fn finish(self, desc: &str) {
         let cfg = format!("{{| max_rules := {}; max_signers := {}; max_policies := {} |}}", MAX_CONTEXT_RULES, MAX_SIGNERS, MAX_POLICIES);
         let nn = self.items.len();
@@ -618,7 +724,7 @@ impl<'a> Tr<'a> {
         }
     }
     fn applicable(&self, r: &ContextRule, c: Cx) -> bool {
-        let t = match c { Cx::Call(a, _) => Ct::Call(a), Cx::Create(w) | Cx::CreateCtor(w) => Ct::Create(w) };
+        let t = match c { Cx::Call(a, _) | Cx::Transfer(a, _) => Ct::Call(a), Cx::Create(w) | Cx::CreateCtor(w) => Ct::Create(w) };
         r.context_type == ContextRuleType::Default || r.context_type == self.w.ctype(t)
     }
     /// an authorisation aimed at the given contexts
@@ -683,7 +789,7 @@ impl<'a> Tr<'a> {
         Md { install: !rng.chance(1, 10), uninstall: !rng.chance(1, 5), can: self.gen_pd(rng, true), enf: self.gen_pd(rng, false) }
     }
     fn gen_policy(&self, rng: &mut Rng) -> (usize, u32) {
-        if rng.chance(1, 6) { (REAL_THR, rng.below(4) as u32) } else { (rng.below(self.npol as u64) as usize, rng.below(5) as u32) }
+        match rng.below(12) { 0..=1 => (REAL_THR, rng.below(4) as u32), 2..=3 => (REAL_SPEND, (rng.below(40) as u32) * 8 * 5 + rng.below(8) as u32), _ => (rng.below(self.npol as u64) as usize, rng.below(5) as u32) }
     }
     fn gen_rule_id(&self, rng: &mut Rng) -> u32 {
         let rules = self.w.rules();
@@ -717,6 +823,7 @@ impl<'a> Tr<'a> {
         }
     }
     fn gen_ctx(&self, rng: &mut Rng) -> Cx {
+        if rng.chance(1, 6) { return Cx::Transfer(1 + rng.below(2) as usize, *rng.pick(&[0i128, 1, 5, 10, 25, 50, 100, 150, -5])); }
         match rng.below(12) { 0..=1 => Cx::Call(0, *rng.pick(&[1usize, 5, 9])), 2..=4 => Cx::Call(1, *rng.pick(&[0usize, 9, 10])), 5..=6 => Cx::Call(2, *rng.pick(&[0usize, 9])), 7 => Cx::Call(3, 10),
                               8 => Cx::Create(0), 9 => Cx::Create(1), 10 => Cx::CreateCtor(0), _ => Cx::CreateCtor(1) }
     }
@@ -727,17 +834,23 @@ impl<'a> Tr<'a> {
         match rng.below(100) {
             0..=33 => { let op = self.gen_op(rng);
                         let a = self.gen_authz(rng, &[Cx::Call(0, Self::fn_index(&op))]); self.admin(&a, &op); }
-            34..=45 => { let rules = self.w.rules();
+            43..=45 => { let via = rng.chance(1, 2); let id = self.gen_rule_id(rng); let t = rng.below(4) as u32;
+                         let c = if via { Cx::Call(0, 11) } else { Cx::Call(4, 12) };
+                         let a = self.gen_authz(rng, &[c]); self.set_threshold(&a, via, id, t); }
+            34..=42 => { let rules = self.w.rules();
                          // aim at a (policy, rule) pair that exists most of the time
-                         let real = self.w.policies[REAL_THR].clone();
-                         let with_pol: std::vec::Vec<&ContextRule> = rules.iter().filter(|r| r.policies.iter().any(|p| p != real)).collect();
-                         let (p, id) = if !with_pol.is_empty() && !rng.chance(1, 5) { let r = *rng.pick(&with_pol); let mocks: std::vec::Vec<Address> = r.policies.iter().filter(|p| *p != real).collect(); (World::idx(&self.w.policies, rng.pick(&mocks)) as usize, r.id) }
+                         let real = self.w.policies[REAL_THR].clone(); let real2 = self.w.policies[REAL_SPEND].clone();
+                         let with_pol: std::vec::Vec<&ContextRule> = rules.iter().filter(|r| r.policies.iter().any(|p| p != real && p != real2)).collect();
+                         let (p, id) = if !with_pol.is_empty() && !rng.chance(1, 5) { let r = *rng.pick(&with_pol); let mocks: std::vec::Vec<Address> = r.policies.iter().filter(|p| *p != real && *p != real2).collect(); (World::idx(&self.w.policies, rng.pick(&mocks)) as usize, r.id) }
                                        else { (rng.below(self.npol as u64) as usize, rng.below(self.w.adds as u64 + 2) as u32) };
                          let m = self.gen_mode(rng); self.set_mode(p, id, &m); }
             46..=81 => { let k = match rng.below(10) { 0 => 0, 1..=6 => 1, 7..=8 => 2, _ => 3 };
                          let cs: std::vec::Vec<Cx> = (0..k).map(|_| self.gen_ctx(rng)).collect();
                          let a = self.gen_authz(rng, &cs); self.check_auth(&a, &cs); }
-            82..=91 => { let root = 1 + rng.below(2) as usize; let other = 3 - root;
+            82..=83 => { let k = 1 + rng.below(3) as usize; let amts: std::vec::Vec<i128> = (0..k).map(|_| *rng.pick(&[1i128, 5, 10, 25, 50, 100])).collect();
+                         let mut cs = std::vec![Cx::Call(1, 14)]; cs.extend(amts.iter().map(|x| Cx::Transfer(2, *x)));
+                         let a = self.gen_authz(rng, &cs); self.invoke_transfers(&a, &amts); }
+            84..=91 => { let root = 1 + rng.below(2) as usize; let other = 3 - root;
                          let subs: std::vec::Vec<usize> = match rng.below(5) { 0..=1 => std::vec![], 2..=3 => std::vec![other], _ => std::vec![other, other] };
                          let mut cs = std::vec![Cx::Call(root, 0)]; cs.extend(subs.iter().map(|t| Cx::Call(*t, 0)));
                          let a = self.gen_authz(rng, &cs); self.invoke(&a, root, &subs); }
@@ -1110,6 +1223,75 @@ impl<'a> Tr<'a> {
         for i in order.iter() { self.check_auth(&asks[*i].0, &asks[*i].1); }
     }
 
+    /// the real spending-limit policy on a rule: batches of transfers decided by the SAME rule are enforced once per
+    /// context against the policy's real state (recorded total = sum of the batch; a batch that exceeds the limit is
+    /// refused as a whole and records nothing), the rolling window, non-transfer contexts, set_threshold entry points
+    fn sc_spending(&mut self, rng: &mut Rng) {
+        if !self.start() { return; }
+        let (s1, s2) = (Sg::Ext(0, 0), Sg::Del(1));
+        let adm = self.adm();
+        let limit = *rng.pick(&[100u32, 120, 150]);
+        let code = *rng.pick(&[3u32, 4, 5, 6]);                                 // period 5 / 20 / 100 / 17281 ledgers
+        let period = PERIODS[code as usize];
+        self.add(Ct::Call(2), None, &[s1], &[(REAL_SPEND, 0 * 8 + code)]);       // limit 0: refused
+        self.add(Ct::Call(2), None, &[s1], &[(REAL_SPEND, limit * 8)]);          // period 0: refused
+        let id = self.w.adds;
+        let extra: std::vec::Vec<(usize, u32)> = match rng.below(3) { 0 => std::vec![(REAL_SPEND, limit * 8 + code)], 1 => std::vec![(REAL_SPEND, limit * 8 + code), (REAL_THR, 1)], _ => std::vec![(0, 1), (REAL_SPEND, limit * 8 + code)] };
+        self.add(Ct::Call(2), None, &[s1], &extra);
+        let a = self.exact(&[s1]);
+        let l = limit as i128;
+        let tr = |x: i128| Cx::Transfer(2, x);
+        self.check_auth(&a, &[tr(l / 4)]);                                       // spent l/4
+        self.check_auth(&a, &[tr(l / 4), tr(l / 4)]);                            // same rule twice: spent 3l/4
+        self.check_auth(&a, &[tr(l / 4), tr(1)]);                                // each fits, together they do not: refused, nothing recorded
+        self.check_auth(&a, &[tr(l / 4 + 1)]);                                   // one over: refused
+        self.check_auth(&a, &[tr(l - 3 * (l / 4))]);                             // exactly the remainder: accepted
+        self.check_auth(&a, &[tr(1)]);                                           // full: refused
+        self.check_auth(&a, &[Cx::Call(2, 0)]);                                  // not a transfer: this policy refuses, only Default can cover it
+        let none = self.exact(&[]); self.check_auth(&none, &[tr(0)]);            // no signer at all
+        self.advance(period - 1); self.check_auth(&a, &[tr(1)]);                 // still inside the window
+        self.advance(1);                                                         // the window has rolled over
+        self.invoke_transfers(&a, &[l / 2, l / 2, 1]);                           // end to end: over the limit as a whole
+        let both = self.exact(&[s1, Sg::Del(0)]);
+        self.invoke_transfers(&both, &[l / 2, l / 2, 1]);                        // (root context needs the Default rule)
+        self.invoke_transfers(&both, &[l / 2, l / 2]);
+        self.invoke_transfers(&both, &[1]);
+        self.advance(period / 2 + 1);
+        self.check_auth(&a, &[tr(l / 2), tr(1)]);
+        self.advance(period);
+        self.check_auth(&a, &[tr(l), tr(0)]); self.check_auth(&a, &[tr(-5), tr(5)]);
+        // a second rule of the same type with its own budget; the newest decides while it accepts
+        let id2 = self.w.adds;
+        self.add(Ct::Call(2), None, &[s1, s2], &[(REAL_SPEND, 10 * 8 + code)]);
+        let b2 = self.exact(&[s1, s2]);
+        self.check_auth(&b2, &[tr(6), tr(6)]);                                    // second context exceeds rule id2's budget at enforce time: refused
+        self.check_auth(&b2, &[tr(6)]); self.check_auth(&b2, &[tr(6)]);          // second one falls back to the older rule
+        self.admin(&adm, &Op::AddPolicy(id2, REAL_SPEND, 50 * 8 + code));        // already installed
+        self.admin(&adm, &Op::RemovePolicy(id2, REAL_SPEND));                    // would leave a duplicate-free rule [s1,s2] without policies
+        self.check_auth(&b2, &[tr(1000)]);
+        self.admin(&adm, &Op::RemoveRule(id));
+        self.check_auth(&a, &[tr(1)]);
+        // set_threshold: through execute and directly (context = call of the policy contract)
+        let thr = self.w.adds;
+        self.add(Ct::Call(1), None, &[s1, s2], &[(REAL_THR, 2)]);
+        let one = self.exact(&[s1]);
+        self.check_auth(&one, &[Cx::Call(1, 0)]);
+        self.set_threshold(&one, true, thr, 1);                                  // not authorised
+        self.set_threshold(&adm, true, thr, 3);                                  // above the number of signers
+        self.set_threshold(&adm, rng.chance(1, 2), thr, 1);
+        self.check_auth(&one, &[Cx::Call(1, 0)]);
+        // called directly, the policy contract is on the call stack: a rule that carries this very policy cannot authorise
+        // the call (the host forbids re-entering the policy from __check_auth); through `execute` it can
+        let pid = self.w.adds;
+        self.add(Ct::Call(4), None, &[s1], &[(REAL_THR, 1)]);
+        self.set_threshold(&one, false, thr, 2);
+        self.admin(&adm, &Op::RemoveRule(pid));
+        self.add(Ct::Call(4), None, &[s2], &[]);                                  // who may call the policy contract directly
+        let p2 = self.exact(&[s2]);
+        self.set_threshold(&p2, false, thr, 2); self.set_threshold(&p2, true, thr, 1);
+        self.check_auth(&one, &[Cx::Call(1, 0)]); self.check_auth(&b2, &[Cx::Call(1, 0)]);
+    }
+
     /// small-scope exhaustive: a table built by a random history, then EVERY subset of the signer universe against
     /// every kind of context (and, for a few subsets, with one invalid signature)
     fn sc_exhaustive(&mut self, rng: &mut Rng, nsig: usize, nkey: usize) {
@@ -1119,7 +1301,7 @@ impl<'a> Tr<'a> {
             match rng.below(10) {
                 0..=6 => { let op = self.gen_op(rng); let a = self.adm(); self.admin(&a, &op); }
                 7..=8 => { let rules = self.w.rules(); let with_pol: std::vec::Vec<&ContextRule> = rules.iter().filter(|r| !r.policies.is_empty()).collect();
-                           if let Some(r) = with_pol.first() { let p = World::idx(&self.w.policies, &r.policies.get(0).unwrap()) as usize; let id = r.id; if p != REAL_THR { let m = self.gen_mode(rng); self.set_mode(p, id, &m); } } }
+                           if let Some(r) = with_pol.first() { let p = World::idx(&self.w.policies, &r.policies.get(0).unwrap()) as usize; let id = r.id; if p < REAL_THR { let m = self.gen_mode(rng); self.set_mode(p, id, &m); } } }
                 _ => self.advance(1),
             }
         }
@@ -1188,11 +1370,12 @@ fn main() {
     }
     // ---- directed scenarios ----
     let nsc = if thorough { 100 } else { 10 } * scale;
-    for k in 0..(8 * nsc) {
+    for k in 0..(9 * nsc) {
         let mut r = rng.fork(7000 + tidx as u64);
         if !out.wants(tidx) { tidx += 1; continue; }
         let mut t = Tr { w: World::new(tidx % 2), items: std::vec![], out: &mut out, nsig: 4, nkey: 3, npol: 4 };
-        let name = match k % 8 {
+        let name = match k % 9 {
+            8 => { t.sc_spending(&mut r); "real-spending-limit-policy" }
             7 => { t.sc_fingerprint(&mut r); "fingerprints" }
             6 => { t.sc_threshold(&mut r); "real-threshold-policy" }
             0 => { t.sc_precedence(&mut r); "precedence" }
